@@ -58,6 +58,12 @@ fn render_items(items: &Value) -> String {
     for it in items.as_array().cloned().unwrap_or_default() {
         let k = s(&it, "k");
         let raw = it.get("raw").and_then(|x| x.as_u64()).unwrap_or(0);
+        if k == "rename_all_long" {
+            // serde's long form: separate rules for the two directions (here the same rule for both)
+            let v = it.get("v").and_then(|x| x.as_str()).unwrap_or("");
+            parts.push(format!("rename_all(serialize = {}, deserialize = {})", rust_str_lit(v), rust_str_lit(v)));
+            continue;
+        }
         match it.get("v").and_then(|x| x.as_str()) {
             // raw string literals: r"..." (raw = 1) / r#"..."# (raw = 2)
             Some(v) if raw == 1 => parts.push(format!("{} = r\"{}\"", k, v)),
@@ -296,6 +302,8 @@ fn run_attrs(out: &mut Out, tier: &str) {
         .chain(RULES.iter().map(|r| json!([[{"k": "rename_all", "v": r}]])))
         .chain(std::iter::once(json!([[{"k": "deny_unknown_fields"}], [{"k": "rename_all", "v": "camelCase"}]])))
         .chain(std::iter::once(json!([[{"k": "rename", "v": "Outer"}, {"k": "rename_all", "v": "kebab-case"}]])))
+        .chain(std::iter::once(json!([[{"k": "rename_all_long", "v": "camelCase"}]])))
+        .chain(std::iter::once(json!([[{"k": "deny_unknown_fields"}, {"k": "rename_all_long", "v": "SCREAMING_SNAKE_CASE"}]])))
         .collect();
     let idents_f = ["user_id", "name", "created_at_utc"];
     let idents_v = ["HelloWorld", "Done", "HTTPServer"];
